@@ -135,3 +135,43 @@ def helper(name, code):
             return "ok"
         return _judge_exc(out, code)
     return _judge_exc(out, code)
+
+
+# ------------------------------------------------------------------ size dimension: long error messages / data
+from symcheck.consts import size_cases, pick  # noqa: E402
+
+MSG_SIZES = size_cases(70000)
+
+
+def long_text(n, pat):
+    if n == 0:
+        return ""
+    if pat == 0:
+        return "x" * n
+    if pat == 1:
+        return "é" * n
+    if pat == 2:
+        return "x" * (n - 1) + "é"      # a 2-byte character straddling byte n
+    if pat == 3:
+        return "€" + "x" * (n - 1)
+    return "\U0001F600" * n
+
+
+def process_long(code, k, pat, in_data):
+    text = long_text(pick(MSG_SIZES, k), pat)
+    m = _err_msg(code, 0 if in_data else 1, text, 1 if in_data else 0, text)
+    out = Outcome()
+    classify(out, lambda: SM._process_response(m))
+    r = _judge_exc(out, code, "E" if in_data else text)
+    if r != "ok":
+        return r
+    if not in_data and text != "" and out.text.count(text) != 1:
+        return "message-not-carried-once"
+    return "ok"
+
+
+def api_long(code, k, pat):
+    text = long_text(pick(MSG_SIZES, k), pat)
+    script = [(1, build(K_NOTIF, 0, "rid-1")), (2, _err_msg(code, 1, text, 0, None, "rid-1"))]
+    out = run_stub(script, lambda r, w: SM.send_message(r, w, "m", None, timeout=Ticks(100), message_id="rid-1"))
+    return _judge_exc(out, code, text)
